@@ -109,7 +109,7 @@ def st_program(draw, max_blocks=6):
             prog.append(["label", "START_B"])
     counter = [0]
 
-    used_labels = set()
+    used_labels = {"START", "START_B"}
 
     def fresh_label():
         counter[0] += 1
@@ -120,7 +120,12 @@ def st_program(draw, max_blocks=6):
             return base
         if base in ("R", "C", "Q", "M"):
             base = "L"  # a bank letter followed by digits would be a register, not a label
-        return f"{base}{counter[0]}"
+        name = f"{base}{counter[0]}"
+        while name in used_labels:  # e.g. "q1" + "1" and "q" + "11": labels are unique within a program
+            counter[0] += 1
+            name = f"{base}{counter[0]}"
+        used_labels.add(name)
+        return name
 
     small = st.integers(0, 6)
     val = st.one_of(st.integers(-4, 9), small, g.st_i32)
@@ -551,6 +556,9 @@ def check(case) -> Dict[str, Any]:
     from netqasm.lang.parsing.text import assemble_subroutine, parse_text_subroutine
 
     # direct interpretation must be in-domain first
+    names = [i[1] for i in case["prog"] if i[0] == "label"]
+    if len(names) != len(set(names)):
+        raise ri.OutOfDomain("duplicate label names")  # not a program: labels are unique
     info: Dict[str, Any] = {}
     text, tinfo = render_text(case)
     info.update(tinfo)
